@@ -46,6 +46,12 @@ for unix in (False, True):
 # real time: the server rotates once the node's second chain is valid; the node must still connect (through its second chain)
 for i in range(3):
     beh("f07_rotate%d" % i, ["C07", "C09"], cfg(life=8, sw=(i == 1)), [E("k1"), D("k1"), RW] + [D("k1", ex, st) for ex, st in [("none", "none"), ("one", "nested"), ("many", "none")] * 6] + [RG("k1", "foreign"), RG("k1", "staleNonce")])
+def RN(k): return dict(op="RotateNode", k=k)
+def DP(k): return dict(op="DialPrev", k=k)
+def RP(k): return dict(op="RemovePrev", k=k)
+for nidl in (False, True):
+    beh("fsys_rotate_node" + ("n" if nidl else ""), ["C02", "C07"], cfg(nidl=nidl), [E("k1"), D("k1"), RN("k1"), D("k1"), DP("k1"), C("k1"), RP("k1"), DP("k1"), D("k1"), RN("k1"), DP("k1"), D("k1"),
+                                                                                  R("k1"), D("k1"), DP("k1"), RN("k1"), RE, D("k1"), DP("k1")])
 with open(os.path.join(HERE, "fixed", "hs.ndjson"), "w") as f:
     for b in B:
         f.write(json.dumps(b, separators=(",", ":")) + "\n")
